@@ -549,9 +549,9 @@ def faulty_generator(yaw, spec):
     class FaultyBox(yaw.randoms.BoxRandoms):
         fail_at = spec["fault"]["chunk"]
 
-        def reseed(self, seed=None):
+        def reseed(self, seed=None, *a, **k):
             self.draws = 0
-            return super().reseed(seed)
+            return super().reseed(seed, *a, **k)
 
         def _draw_coords(self, probe_size):
             k = self.draws
